@@ -66,6 +66,12 @@ type Obligation struct {
 // Ctx is the VC-building context of one function (or lemma).
 type Ctx struct {
 	trustPre map[string]bool
+	// panicsWith: type tags the function under verification may panic with (nil: not declared)
+	panicsWith    []string
+	panicsWithSet bool
+	// recovery modelling: value returned by recover() on a simulated panic path
+	recoverTerm   string
+	recoverCalled bool
 	prog     *Program
 	mode     Mode
 	pkg      *types.Package
